@@ -42,6 +42,229 @@ func c17RecvFieldName(f *ssa.Function, v ssa.Value) (string, bool) {
 	return path[0], true
 }
 
+// ---------------------------------------------------------------------------------------------
+// Elements found by a search predicate
+//
+// `i := slices.IndexFunc(s, pred); …; e := s[i]` is the modern spelling of a search loop
+// `for _, e := range s { if pred(e) { … } }`: reading s[i] succeeds only for i >= 0, i.e. only when
+// the search stopped at that element because pred returned true for it. What the predicate's
+// true-returns establish about its parameter therefore holds for s[i] — the closure is judged as if
+// it were the loop body.
+
+// c17Found describes a value read from the element a predicate search stopped at.
+type c17Found struct {
+	Search *ssa.Call     // slices.IndexFunc(s, pred)
+	Pred   *ssa.Function // the predicate (one parameter, one boolean result)
+	Elem   ssa.Value     // s[<result of Search>] as read by the searching function
+	sub    *c17Subst     // values of Pred expressed as values of the searching function
+}
+
+// c17Subst relates values of a callee (a predicate closure) to values of the function that passed
+// it on: the parameter stands for Elem, captured variables for the variables they were bound to.
+type c17Subst struct {
+	p      *Program
+	params map[*ssa.Parameter]ssa.Value
+	free   map[*ssa.FreeVar]ssa.Value // address of the captured variable in the outer function
+}
+
+func c17SingleStore(a *ssa.Alloc) ssa.Value {
+	var val ssa.Value
+	n := 0
+	for _, r := range referrersOf(a) {
+		if st, ok := r.(*ssa.Store); ok && st.Addr == ssa.Value(a) {
+			n++
+			val = st.Val
+		}
+	}
+	if n != 1 {
+		return nil
+	}
+	return val
+}
+
+// equiv: value a of the callee and value b of the outer function are the same computation on the
+// same inputs (structural comparison under the substitution; pure operations only).
+func (s *c17Subst) equiv(a, b ssa.Value, d int) bool {
+	if a == nil || b == nil || d > 14 {
+		return false
+	}
+	a, b = stripConv(a), stripConv(b)
+	// a load of a captured variable: the variable's (only) value in the outer function
+	if u, ok := a.(*ssa.UnOp); ok && u.Op == token.MUL {
+		if fv, isFV := u.X.(*ssa.FreeVar); isFV {
+			addr := s.free[fv]
+			if addr == nil {
+				return false
+			}
+			if l, isLoad := b.(*ssa.UnOp); isLoad && l.Op == token.MUL && l.X == addr {
+				return true
+			}
+			if al, isAlloc := addr.(*ssa.Alloc); isAlloc {
+				if v := c17SingleStore(al); v != nil {
+					return s.p.sameValue(v, b)
+				}
+			}
+			return false
+		}
+	}
+	if u, ok := b.(*ssa.UnOp); ok && u.Op == token.MUL {
+		if src, ok := s.p.loadSource(u); ok {
+			return s.equiv(a, src, d+1)
+		}
+	}
+	switch x := a.(type) {
+	case *ssa.Parameter:
+		v, ok := s.params[x]
+		return ok && s.p.sameValue(v, b)
+	case *ssa.Const:
+		y, ok := b.(*ssa.Const)
+		if !ok || !types.Identical(x.Type(), y.Type()) {
+			return false
+		}
+		if x.Value == nil || y.Value == nil {
+			return x.Value == nil && y.Value == nil
+		}
+		return x.Value.ExactString() == y.Value.ExactString()
+	case *ssa.TypeAssert:
+		y, ok := b.(*ssa.TypeAssert)
+		return ok && x.CommaOk == y.CommaOk && types.Identical(x.AssertedType, y.AssertedType) && s.equiv(x.X, y.X, d+1)
+	case *ssa.Extract:
+		y, ok := b.(*ssa.Extract)
+		return ok && x.Index == y.Index && s.equiv(x.Tuple, y.Tuple, d+1)
+	case *ssa.Lookup:
+		y, ok := b.(*ssa.Lookup)
+		return ok && x.CommaOk == y.CommaOk && s.equiv(x.X, y.X, d+1) && s.equiv(x.Index, y.Index, d+1)
+	case *ssa.UnOp:
+		y, ok := b.(*ssa.UnOp)
+		return ok && x.Op == y.Op && x.Op != token.ARROW && s.equiv(x.X, y.X, d+1)
+	case *ssa.FieldAddr:
+		y, ok := b.(*ssa.FieldAddr)
+		return ok && x.Field == y.Field && s.equiv(x.X, y.X, d+1)
+	case *ssa.Field:
+		y, ok := b.(*ssa.Field)
+		return ok && x.Field == y.Field && s.equiv(x.X, y.X, d+1)
+	case *ssa.IndexAddr:
+		y, ok := b.(*ssa.IndexAddr)
+		return ok && s.equiv(x.X, y.X, d+1) && s.equiv(x.Index, y.Index, d+1)
+	case *ssa.Index:
+		y, ok := b.(*ssa.Index)
+		return ok && s.equiv(x.X, y.X, d+1) && s.equiv(x.Index, y.Index, d+1)
+	case *ssa.BinOp:
+		y, ok := b.(*ssa.BinOp)
+		if !ok || x.Op != y.Op {
+			return false
+		}
+		if s.equiv(x.X, y.X, d+1) && s.equiv(x.Y, y.Y, d+1) {
+			return true
+		}
+		switch x.Op {
+		case token.EQL, token.NEQ, token.ADD, token.MUL, token.AND, token.OR:
+			return s.equiv(x.X, y.Y, d+1) && s.equiv(x.Y, y.X, d+1)
+		}
+	}
+	return false
+}
+
+// c17FoundBy: v (a value of f) is read from s[i] with i the result of slices.IndexFunc(s, pred),
+// through value-preserving steps (type assertion, tuple extraction); no element of s is stored to in f.
+func (p *Program) c17FoundBy(f *ssa.Function, v ssa.Value) *c17Found {
+	var elem ssa.Value
+	for i := 0; i < 6 && elem == nil; i++ {
+		v = stripConv(p.c12Resolve(v))
+		switch x := v.(type) {
+		case *ssa.Extract:
+			if x.Index != 0 {
+				return nil
+			}
+			v = x.Tuple
+		case *ssa.TypeAssert:
+			v = x.X
+		case *ssa.UnOp:
+			if _, isIA := x.X.(*ssa.IndexAddr); !isIA || x.Op != token.MUL {
+				return nil
+			}
+			elem = x
+		default:
+			return nil
+		}
+	}
+	if elem == nil {
+		return nil
+	}
+	ia := elem.(*ssa.UnOp).X.(*ssa.IndexAddr)
+	search, ok := stripConv(p.c12Resolve(ia.Index)).(*ssa.Call)
+	if !ok || calleeID(search.Common()) != "slices.IndexFunc" || len(search.Call.Args) != 2 || !p.sameValue(search.Call.Args[0], ia.X) {
+		return nil
+	}
+	fd := &c17Found{Search: search, Elem: elem, sub: &c17Subst{p: p, params: map[*ssa.Parameter]ssa.Value{}, free: map[*ssa.FreeVar]ssa.Value{}}}
+	switch pv := search.Call.Args[1].(type) {
+	case *ssa.MakeClosure:
+		fd.Pred, _ = pv.Fn.(*ssa.Function)
+		if fd.Pred != nil && len(fd.Pred.FreeVars) == len(pv.Bindings) {
+			for i, fv := range fd.Pred.FreeVars {
+				fd.sub.free[fv] = pv.Bindings[i]
+			}
+		}
+	case *ssa.Function:
+		fd.Pred = pv
+	}
+	if fd.Pred == nil || len(fd.Pred.Blocks) == 0 || len(fd.Pred.Params) != 1 || fd.Pred.Signature.Results().Len() != 1 {
+		return nil
+	}
+	fd.sub.params[fd.Pred.Params[0]] = elem
+	for _, b := range f.Blocks {
+		for _, in := range b.Instrs {
+			if st, isSt := in.(*ssa.Store); isSt {
+				if sia, isIA := st.Addr.(*ssa.IndexAddr); isIA && p.sameValue(sia.X, ia.X) {
+					return nil // an element is replaced: the found element may not be the one read
+				}
+			}
+		}
+	}
+	return fd
+}
+
+// holdsFor: the alternative sets of facts (one per way the predicate can have returned true) that
+// are compatible with what the searching function knows (facts `known` at the point of interest).
+func (fd *c17Found) holdsFor(known []Fact) [][]Fact {
+	var out [][]Fact
+	for _, bc := range fd.sub.p.c17BoolCases(fd.Pred) {
+		if !bc.Val {
+			continue
+		}
+		feasible := true
+		for _, cf := range bc.Facts {
+			for _, kf := range known {
+				if cf.Pol != kf.Pol && fd.sub.equiv(cf.Cond, kf.Cond, 0) {
+					feasible = false
+				}
+			}
+		}
+		if feasible {
+			out = append(out, bc.Facts)
+		}
+	}
+	return out
+}
+
+// c17RecvFieldNameVia: like c17RecvFieldName, for a value of a closure of f that reads the field
+// through the captured receiver.
+func c17RecvFieldNameVia(f *ssa.Function, v ssa.Value, free map[*ssa.FreeVar]ssa.Value) (string, bool) {
+	root, path := c17FieldPath(v)
+	if len(path) != 1 || len(f.Params) == 0 || f.Signature.Recv() == nil {
+		return "", false
+	}
+	if fv, ok := root.(*ssa.FreeVar); ok {
+		if root = free[fv]; root == nil {
+			return "", false
+		}
+	}
+	if !c17IsParamOrSpill(root, f.Params[0]) {
+		return "", false
+	}
+	return path[0], true
+}
+
 func c17r4(c *Ctx) {
 	p := c.P
 	n := 0
@@ -53,26 +276,25 @@ func c17r4(c *Ctx) {
 		n++
 		c.Visit(f)
 		obj := c17ObjParam(f)
-		// the condition map: X of the lookups with constant keys "status" and "type"
-		var statusLk, typeLk *ssa.Lookup
+		// the condition map: X of the lookup with the constant key "status"
+		var statusLk *ssa.Lookup
 		for _, b := range f.Blocks {
 			for _, in := range b.Instrs {
 				if lk, ok := in.(*ssa.Lookup); ok {
-					switch k, _ := constString(lk.Index); k {
-					case "status":
+					if k, _ := constString(lk.Index); k == "status" {
 						statusLk = lk
-					case "type":
-						typeLk = lk
 					}
 				}
 			}
 		}
 		o1 := c.Ob(f, "true-only-for-matching-condition", c0, "true is returned only for a well-formed condition (list found without error, entries are maps) whose type and status equal the configured ones, after the observedGeneration test of that same condition")
-		if statusLk == nil || typeLk == nil || obj == nil || !p.sameValue(statusLk.X, typeLk.X) {
-			o1.Unknown("the condition's \"type\" and \"status\" lookups on one map were not found")
+		if statusLk == nil || obj == nil {
+			o1.Unknown("the lookup of the condition's \"status\" was not found")
 			continue
 		}
 		m := statusLk.X
+		// the condition may have been selected by a search predicate (slices.IndexFunc) instead of a loop
+		found := p.c17FoundBy(f, m)
 		var stale *c17Stale
 		for _, st := range p.c17StaleCalls(f) {
 			if p.sameValue(st.Map, m) {
@@ -80,19 +302,54 @@ func c17r4(c *Ctx) {
 				stale = &s
 			}
 		}
-		eqField := func(fs []Fact, lk *ssa.Lookup) (string, bool) {
+		// eqFieldIn: the facts compare <the condition map>[key] for equality with a configured field of
+		// the receiver; same: "this value denotes the condition map"; field: receiver field read by a value
+		eqFieldIn := func(fs []Fact, key string, same func(ssa.Value) bool, field func(ssa.Value) (string, bool)) (string, bool) {
 			for _, fc := range fs {
 				a, b, equal, ok := c17EqFact(fc)
 				if !ok || !equal {
 					continue
 				}
 				for _, pr := range [][2]ssa.Value{{a, b}, {b, a}} {
-					if x, isLk := stripConv(pr[0]).(*ssa.Lookup); isLk && p.sameValue(x.X, lk.X) && p.sameValue(x.Index, lk.Index) {
-						if name, ok := c17RecvFieldName(f, pr[1]); ok {
-							return name, true
-						}
+					x, isLk := stripConv(pr[0]).(*ssa.Lookup)
+					if !isLk || x.CommaOk {
+						continue
+					}
+					if k, isConst := constString(x.Index); !isConst || k != key || !same(x.X) {
+						continue
+					}
+					if name, ok := field(pr[1]); ok {
+						return name, true
 					}
 				}
+			}
+			return "", false
+		}
+		// eqField: cond[key] == <configured field> holds under fs — tested by the function itself, or
+		// established by every way the search predicate can have accepted the condition
+		eqField := func(fs []Fact, key string) (string, bool) {
+			if name, ok := eqFieldIn(fs, key, func(v ssa.Value) bool { return p.sameValue(v, m) },
+				func(v ssa.Value) (string, bool) { return c17RecvFieldName(f, v) }); ok {
+				return name, true
+			}
+			if found == nil {
+				return "", false
+			}
+			names := map[string]bool{}
+			ways := found.holdsFor(fs)
+			for _, way := range ways {
+				name, ok := eqFieldIn(way, key, func(v ssa.Value) bool { return found.sub.equiv(v, m, 0) },
+					func(v ssa.Value) (string, bool) { return c17RecvFieldNameVia(f, v, found.sub.free) })
+				if !ok {
+					return "", false
+				}
+				names[name] = true
+			}
+			if len(ways) == 0 || len(names) != 1 {
+				return "", false
+			}
+			for name := range names {
+				return name, true
 			}
 			return "", false
 		}
@@ -118,8 +375,8 @@ func c17r4(c *Ctx) {
 			}
 			nTrue++
 			at := p.IPos(rc.Ret)
-			tf, ok1 := eqField(rc.Facts, typeLk)
-			sf, ok2 := eqField(rc.Facts, statusLk)
+			tf, ok1 := eqField(rc.Facts, "type")
+			sf, ok2 := eqField(rc.Facts, "status")
 			switch {
 			case !ok1:
 				pr = append(pr, "true at "+at+" without cond[\"type\"] == <configured type>")
